@@ -138,18 +138,33 @@ class Lab(object):
         return classes
 
     def insert_rows(self, rows):
-        """rows: {table: [ {col: value}, ... ]} inserted with raw SQL."""
+        """rows: {table: [ {col: value}, ... ]} inserted with raw SQL.  Rows
+        the schema rejects (UNIQUE/CHECK) are skipped and rows left with a
+        dangling foreign key are removed again, so whatever remains is a
+        consistent database; the caller snapshots it as the baseline."""
+        from django.db import utils as dbu
         cur = self.conn.cursor()
         try:
             cur.execute('PRAGMA foreign_keys = OFF')
             for table, rws in rows.items():
                 for r in rws:
                     cols = list(r)
-                    cur.execute(
-                        'INSERT INTO "%s" (%s) VALUES (%s)' % (
-                            table, ', '.join('"%s"' % c for c in cols),
-                            ', '.join(['%s'] * len(cols))),
-                        [r[c] for c in cols])
+                    try:
+                        cur.execute(
+                            'INSERT INTO "%s" (%s) VALUES (%s)' % (
+                                table, ', '.join('"%s"' % c for c in cols),
+                                ', '.join(['%s'] * len(cols))),
+                            [r[c] for c in cols])
+                    except dbu.IntegrityError:
+                        pass
+            for _round in range(10):
+                cur.execute('PRAGMA foreign_key_check')
+                bad = cur.fetchall()
+                if not bad:
+                    break
+                for table, rowid, _parent, _fkid in bad:
+                    cur.execute('DELETE FROM "%s" WHERE rowid = %%s' % table,
+                                [rowid])
             cur.execute('PRAGMA foreign_keys = ON')
         finally:
             cur.close()
